@@ -220,11 +220,38 @@ pub fn save_cache(cache_path: &Path, cache: &Cache) -> std::io::Result<()> {
 pub(crate) fn resolve_scan_paths(paths: &[PathBuf], include: &[String]) -> Vec<PathBuf> {
     // CLI --include overrides paths
     if !include.is_empty() {
-        return include.iter().map(PathBuf::from).collect();
+        return include
+            .iter()
+            .map(|p| canonical_target(Path::new(p)))
+            .collect();
     }
 
     // Use provided paths (or default ".")
-    paths.to_vec()
+    paths.iter().map(|p| canonical_target(p)).collect()
+}
+
+/// Reduce a scan target to one spelling, so that verdicts do not depend on how it was typed:
+/// `./src`, `src/` and `<cwd>/src` become `src`; `./` and `<cwd>` become `.`.
+/// Targets outside the working directory are kept as given.
+fn canonical_target(path: &Path) -> PathBuf {
+    let relative = if path.is_absolute() {
+        std::env::current_dir()
+            .ok()
+            .and_then(|cwd| path.strip_prefix(cwd).ok().map(Path::to_path_buf))
+            .unwrap_or_else(|| path.to_path_buf())
+    } else {
+        path.to_path_buf()
+    };
+    // `components()` drops trailing separators and inner `.` segments
+    let cleaned: PathBuf = relative
+        .components()
+        .filter(|c| !matches!(c, std::path::Component::CurDir))
+        .collect();
+    if cleaned.as_os_str().is_empty() {
+        PathBuf::from(".")
+    } else {
+        cleaned
+    }
 }
 
 /// Write output to a file or stdout.
